@@ -189,6 +189,9 @@ func VxC02Snapshot() {
 	// the newest level-0 file may be unreadable for a moment (a corrupt file, a race
 	// with a reset): the attempt fails, and must leave nothing locked behind
 	if vx.Fault("newestL0Unreadable") {
+		// (the position itself is still known: it was cached by the last sync)
+		p := ltx.Pos{TXID: w.pos}
+		w.db.pos.value = &p
 		vx.FSWriteFile(w.db.LTXPath(0, w.pos, w.pos), []byte("not an ltx file"))
 		w.db.syncState = syncState{}
 	}
